@@ -439,6 +439,10 @@ def rule_runtime(prog):
         pf = proj_fields(st["p"])
         if pf and pf[0][0] == K and len(pf) == 1 and bi in ok_region:
             rv = st["rv"]
+            if rv["k"] == "use" and is_place(rv["a"]) and not proj(rv["a"]):
+                d = f.single_def(rv["a"]["l"])
+                if d and d[2] == "assign":
+                    rv = d[3]
             if rv["k"] == "agg" and rv.get("v") == "None":
                 cleared[pf[0][2]] = "= None"
     for bi, t in f.calls():
